@@ -724,6 +724,7 @@ class Cache:
     def _transact(self, retry=False, filename=None):
         sql = self._sql
         filenames = []
+        created = []
         _disk_remove = self._disk.remove
         tid = threading.get_ident()
         txn_id = self._txn_id
@@ -740,7 +741,7 @@ class Cache:
                     begin = True
                     self._txn_id = tid
                     self._txn_cleanup = filenames
-                    self._txn_created = []
+                    self._txn_created = created
                     break
                 except sqlite3.OperationalError:
                     if retry:
@@ -759,7 +760,7 @@ class Cache:
                 assert self._txn_id == tid
                 self._txn_id = None
                 sql('ROLLBACK')
-                for name in self._txn_created:
+                for name in created:
                     _disk_remove(name)
             raise
         else:
